@@ -39,7 +39,7 @@ REQUIRED_CLAUSES = ['T6-finish-only-at-end-of-stream', 'source-error-then-retry'
                     'natural-fault-observed']
 ASSUMPTIONS = ['only Exception subclasses are injected (the wrapper does not promise to stop BaseException)',
                'instance-level wrappers around the real eat_chunk record feeds; the real method still runs underneath']
-INTERPRETER_FLAGS = [[], ['-O'], [], ['-bb']]
+INTERPRETER_FLAGS = [[], ['-O'], ['-X', 'dev'], ['-bb']]
 SHARDS = {'quick': 8, 'thorough': 16}
 MIN_DISTINCT = {'quick': 5000, 'thorough': 50000}
 LEVEL_TEXT = ('Fault enumeration: every single boundary fault placement (10 inspectors x chunk index <= 12 x exception pool '
@@ -157,6 +157,29 @@ def run_recorded(case):
                 produced.append(c)
                 yield c
         src = gen()
+    elif case['source'] == 'iterobj':
+        class IterSrc:
+            # an iterator OBJECT (not a generator): after raising once it goes on where it was (a chunk iterator over
+            # a connection that retries)
+            def __init__(self):
+                self.i = 0
+                self.ncalls = 0
+
+            def __iter__(self):
+                return self
+
+            def __next__(self):
+                self.ncalls += 1
+                if self.ncalls == case.get('source_fault_at'):
+                    raise SourceHiccup('source iterator failed once')
+                if self.i >= len(chunks):
+                    raise StopIteration
+                c = chunks[self.i]
+                self.i += 1
+                log.append(('src', len(produced), c))
+                produced.append(c)
+                return c
+        src = IterSrc()
     else:
         class Src:
             def __init__(self):
@@ -233,33 +256,56 @@ def run_recorded(case):
     for insp in w._inspectors:
         hook(insp)
     reader_exc = None
-    try:
-        if case['source'] == 'iter':
-            k = 0
-            for c in w:
-                log.append(('ret', k, c))
-                k += 1
-        else:
-            k = 0
-            sizes = [len(c) for c in chunks] + [1 << 16]           # a size of 0 is a read(0) in mid-stream
-            for s in sizes:
-                log.append(('ask', k, s))
+    persist_from = None
+    sizes = [len(c) for c in chunks] + [1 << 16]           # a size of 0 is a read(0) in mid-stream
+    state = {'k': 0, 'si': 0}
+
+    def one_step():
+        """One read()/next() by the reader; returns False at the end of the stream."""
+        if case['source'] in ('iter', 'iterobj'):
+            try:
                 try:
-                    c = w.read(s)
+                    c = next(w)
                 except SourceHiccup:
-                    c = w.read(s)              # the reader retries after the source's own transient error
-                log.append(('ret', k, c))
-                k += 1
+                    c = next(w)                # the reader retries after the source's own transient error
+            except StopIteration:
+                return False
+        else:
+            if state['si'] >= len(sizes):
+                return False
+            sz = sizes[state['si']]
+            state['si'] += 1
+            log.append(('ask', state['k'], sz))
+            try:
+                c = w.read(sz)
+            except SourceHiccup:
+                c = w.read(sz)              # the reader retries after the source's own transient error
+        log.append(('ret', state['k'], c))
+        state['k'] += 1
+        return True
+    try:
+        while one_step():
+            pass
     except Exception as e:
         reader_exc = e
         log.append(('reader-exc', e))
+    if reader_exc is not None and case.get('persist'):
+        # a reader that does not give up at the first error: it asks again a few times.  What it gets is its own business
+        # (the property says the stream is cut off); what the inspectors that had failed before get is not - nothing.
+        persist_from = len(log)
+        for _ in range(case['persist']):
+            try:
+                if not one_step():
+                    break
+            except Exception as e:  # noqa
+                log.append(('reader-exc', e))
     close_exc = None
     try:
         w.close()
     except Exception as e:
         close_exc = e
     _LP['armed'] = False
-    return dict(log=log, wrapper=w, reader_exc=reader_exc, close_exc=close_exc, nchunks=len(chunks),
+    return dict(log=log, wrapper=w, reader_exc=reader_exc, close_exc=close_exc, nchunks=len(chunks), persist_from=persist_from,
                 inspectors=sorted(i.NAME for i in w._inspectors), fired=_LP['fired'] if line_k else None,
                 errored=sorted(i.NAME for i in w._errored_inspectors))
 
@@ -270,12 +316,25 @@ def run_recorded(case):
 def check_log(rec, case):
     """Returns (list of (rule, detail), dict of rule -> evaluations)."""
     F = sl.fi()
-    log = rec['log']
+    full_log = rec['log']
+    log = full_log if rec.get('persist_from') is None else full_log[:rec['persist_from']]
     bad = []
     ev = {}
 
     def count(rule, n=1):
         ev[rule] = ev.get(rule, 0) + n
+    if rec.get('persist_from') is not None:
+        # T8 the reader went on after the error it got: an inspector other than the expected one that had raised is still
+        # never fed again (what the expected format's inspector sees after its own failure is not constrained)
+        count('T8-failed-inspectors-stay-unfed-when-the-reader-goes-on')
+        raised = set()
+        for e in full_log:
+            if e[0] == 'raise' and e[1] != case.get('expected'):
+                raised.add(e[1])
+            elif e[0] == 'feed' and e[1] in raised:
+                bad.append(('T8-failed-inspectors-stay-unfed-when-the-reader-goes-on',
+                            {'inspector': e[1], 'fed_again_at_its_call': e[2]}))
+                break
     src = [e for e in log if e[0] == 'src']
     ret = [e for e in log if e[0] == 'ret']
     expected = case.get('expected')
@@ -384,7 +443,7 @@ def _evaluate_no_debug(ctx, case):
     plan = case.get('plan') or {}
     key = (repr(case.get('spec') or case.get('data')), tuple(case['cuts']), case['source'], case.get('expected'),
            tuple(case.get('allowed') or ()), tuple(sorted((k, tuple(v)) for k, v in plan.items())), case.get('line_fault'),
-           case.get('line_target'), tuple(case.get('empties') or ()), case.get('expected_style'), case.get('source_fault_at'))
+           case.get('line_target'), tuple(case.get('empties') or ()), case.get('expected_style'), case.get('source_fault_at'), case.get('persist'))
     if case.get('source_fault_at'):
         ctx.clause('source-error-then-retry')
     if case.get('expected_style'):
@@ -470,6 +529,10 @@ def run(ctx):
             case = dict(case, expected_style='strenum' if idx % 5 == 0 else 'strsub')
         if case.get('source') == 'file' and idx % 6 == 3 and not case.get('line_fault'):
             case = dict(case, source_fault_at=1 + (idx // 6) % (len(case['cuts']) + 2))
+        if case.get('source') == 'iter' and idx % 6 == 4 and not case.get('line_fault'):
+            case = dict(case, source='iterobj', source_fault_at=1 + (idx // 6) % (len(case['cuts']) + 2))
+        if idx % 4 == 1 and case.get('expected') in NAMES and not case.get('line_fault'):
+            case = dict(case, persist=3)
         if ctx.mine(idx):
             ctx.sample(klass, {k: v for k, v in case.items() if k != 'data'})
             evaluate(ctx, case)
@@ -505,6 +568,16 @@ def run(ctx):
                 empties = sorted(rng.sample(range(len(cuts) + 2), rng.randrange(1, 3))) if rng.random() < 0.35 else []
                 emit(dict(s, cuts=cuts, source=rng.choice(['file', 'iter']), expected=expected, allowed=allowed,
                           plan={}, empties=empties), 'no-injection')
+    # ---- on ONE chunk: a fault in another inspector and a fault in the expected format's inspector, and a reader that
+    # reads on after the error (which of the two the wrapper visits first is its own business)
+    for expected in NAMES:
+        for other in NAMES:
+            if other == expected:
+                continue
+            for ci in (0, 1, 3):
+                emit(dict(base, cuts=fixed_cuts, source=('file', 'iter')[(ci + len(other)) % 2], expected=expected, allowed=None,
+                          plan={other: [ci, EXC_POOL[(ci + len(expected)) % len(EXC_POOL)]], expected: [ci, 'ValueError']},
+                          persist=3), 'same-chunk-fault-with-expected')
     # ---- multiple faults, sampled
     for i in range(ctx.pick(8000, 1000000)):
         s = rng.choice(small if rng.random() < 0.9 else streams())
